@@ -13,7 +13,7 @@ RULE = ("seeded scenarios (all objective families with emphasis on ties and scal
 ASSUMPTIONS = ["inside-evaluation moments are checked during the global phase only (mid-refinement the simplex legitimately holds better points)",
                "after refinement the reported point must be an evaluated point whose value is the objective there and not worse than the best global trial",
                "ties: any of several equal minima is accepted"]
-SIZES = {"quick": 320, "thorough": 3000}
+SIZES = {"quick": 400, "thorough": 7000}
 TIE_FAMS = ["const", "stairs", "rcos", "scaled", "cones", "noise", "linear", "sines", "outside", "needle", "discont", "wells",
             "const", "stairs", "rcos", "scaled"]
 
